@@ -223,6 +223,11 @@ Example ex_program_log_exists :
   (exists g b h, prun ex_cfg ex_prog 25 ex_fs_log bk0 [] = Ok (g, b, [Stat [3] PDir; Mkdir [3;5]; Stat [2;2] PFile] ++ firstn 22 ex_body, h)).
 Proof. split; [vm_compute; reflexivity | do 3 eexists; vm_compute; reflexivity]. Qed.
 
+(* ... and the trace recorded where log.txt was absent is NOT accepted where it exists (the
+   audit's example: the acceptor used to accept it there): the answer of its Stat is wrong *)
+Example ex_trace_where_log_exists_rejected : accept ex_cfg ex_fs_log ex_trace = Rejected 2 4.
+Proof. vm_compute. reflexivity. Qed.
+
 (* the hypothesis on the KIND at the declared outputs is needed: this program looks whether
    the output [2;2] exists and writes a different result [2;1] accordingly; both runs are
    accepted, on file systems that differ ONLY in that an earlier run left [2;2] *)
